@@ -113,6 +113,14 @@ def finding_matches(entry, prop, oid, meta):
     return True
 
 
+# a bounded module may also serve another property with a SUBSET of its clauses (the mechanism that property rests on)
+EXTRA_BOUNDED = {
+    'c06_csv': {'C07': ['future-rows-irrelevant', 'missing-cell-ffill', 'value-at-latest-observation', 'open-close-boundaries',
+                        'row-order-independent', 'no-bar-before-t-gives-nan', 'cache-transparent'],
+                'C18': ['cache-transparent', 'row-order-independent']},
+}
+
+
 def bounded_modules(prop):
     import bounded
     out = []
@@ -125,7 +133,7 @@ def bounded_modules(prop):
             print('checker: cannot import bounded.%s: %r' % (m.name, e), file=sys.stderr)
             continue
         props = getattr(mod, 'PROPERTIES', None) or [getattr(mod, 'PROPERTY', None)]
-        if prop in props:
+        if prop in props or prop in EXTRA_BOUNDED.get(m.name, {}):
             out.append(m.name)
     return out
 
@@ -269,7 +277,10 @@ def check(prop, tier, seed, jobs):
             fallback = [r for r in fallback if not r.get('crash')]
     bviol = []
     for r in bres:
+        only = EXTRA_BOUNDED.get(r['module'], {}).get(prop)
         for f in r.get('failures', []):
+            if only is not None and f['clause'] not in only:
+                continue
             oid = 'bounded:%s/%s' % (r['module'], f['clause'])
             kf = next((e for e in known if finding_matches(e, prop, oid, f.get('case'))), None)
             if kf is not None:
